@@ -128,6 +128,15 @@ def print_case(case):
         except Exception:  # noqa
             pass
     model.fit(X, yk)
+    if (n + d) % 2 == 0:
+        # the fitted estimator after a pickle / deep-copy / cloudpickle round trip (returned by a worker, stored and reloaded) prints and predicts the same tree
+        from mc import transport
+        kind_ = transport.pick((data_spec, repr(cfg)))
+        before_ = model.predict(X)
+        model = transport.roundtrip(model, kind_)
+        if not np.array_equal(model.predict(X), before_):
+            return {"v": [violation("printed_rules_disagree_with_predict", {"after": kind_, "what": "the copy predicts differently from the original"},
+                                    n=n, d=d, n_nodes=model.tree_.n_nodes, used_features=[])], "stats": {"evals": 1}}
     t = model.tree_
     used = sorted({f for f in t.features if f is not None})
     where = dict(n=n, d=d, n_nodes=t.n_nodes, used_features=used)
